@@ -177,7 +177,7 @@ Fixpoint split_seg (ifs s : bytes) (rs : list (rune * nat)) (j : nat) (fs : list
   | (r, w) :: rs' =>
     let j' := (j + w)%nat in
     if contains_rune ifs r then
-      let i' := (j + rune_len r)%nat in
+      let i' := (j + w)%nat in
       if is_space r then
         (if ws then split_seg ifs s rs' j' fs ws i'
          else match sub s i j with
